@@ -18,9 +18,11 @@ def emit(obj):
     sys.stdout.write("\n" + json.dumps(obj, default=str) + "\n")
 
 
-def new_ctx(templates: dict | None = None, **kw):
+def new_ctx(templates: dict | None = None, noisy: bool = False, **kw):
+    """noisy: keep the default quiet_output=False, so that the message formatter runs (output goes to the
+    swallowed stdout of quiet_stdout())"""
     from wikitextprocessor import Wtp
-    ctx = Wtp(quiet=True, quiet_output=True, **kw) if "quiet_output" in Wtp.__init__.__code__.co_varnames \
+    ctx = Wtp(quiet=True, quiet_output=True, **kw) if ("quiet_output" in Wtp.__init__.__code__.co_varnames and not noisy) \
         else Wtp(quiet=True, **kw)
     for name, body in (templates or {}).items():
         ctx.add_page("Template:" + name, 10, body)
